@@ -8,6 +8,8 @@ Model/Pools12.v on the same inputs):
   pools     build a pool family (constructor + setters), build_index_by_delegation_id,
             generate_delegations_by_node_id, incorporate_delegation of everything generated (two node orders)
   inc       decode per-node documents and incorporate them in a given order (consistent and inconsistent)
+  dhist     ONE Delegations container: multi-step histories (add, remove_by_id, set_details on shared objects, queries,
+            to_json at any point and repeatedly, from_json of earlier texts)
   hist      ONE Pools object: multi-step histories (index, edit / re-delegate / replace, re-index, generate, regroup)
   annotate  pools + single delegations -> annotate_delegations_and_pools on a real NetworkX ARM graph (or
             Topology.single_delegation) -> node properties -> get_delegations -> incorporate
@@ -1464,6 +1466,14 @@ def c_hop(op, dets):
         return '(HPool %s %s)' % (cnat(op[1]), c_pool_op(op[2], dets))
     if k == 'add':
         return '(HAdd %s)' % cnat(op[1])
+    if k == 'getpool':
+        return '(HGetPool %s)' % cstr(op[1])
+    if k == 'q':
+        q = {'nodeids': lambda: '(QNodeIds %s)' % cstr(op[2]), 'delegids': lambda: 'QDelegIds',
+             'poolsby': lambda: '(QPoolsBy %s)' % cstr(op[2]), 'getstrict': lambda: '(QGetStrict %s)' % cstr(op[2]),
+             'validate': lambda: 'QValidate', 'type': lambda: 'QType',
+             'poolget': lambda: '(QPoolGet %s)' % cnat(dets)}[op[1]]()      # dets = heap position of the object
+        return '(HQuery %s)' % q
     if k == 'inc':      # dets = the observed delegations that were handed to incorporate_delegation
         return '(HInc %s %s %s)' % (cstr(op[1]), c_ty(op[2]), clist([c_deleg_obs(d) for d in dets]))
     return {'index': 'HIndex', 'generate': 'HGenerate', 'regroup': 'HRegroup'}[k]
@@ -1498,6 +1508,15 @@ def apply_pool_op(p, op):
         return err(e), det
 
 
+MARK = '<<marker>>'
+
+
+def index_snapshot(ps):
+    if ps.pools_by_delegation is None:
+        return None
+    return [[k, [p.pool_id for p in v]] for k, v in ps.pools_by_delegation.items()]
+
+
 def judge_generated(ty, P, g, regs):
     """the regrouping clause for a registry P (canonical pools), its generated family g and the read-backs regs"""
     exp = family_expectation(ty, P)
@@ -1528,7 +1547,9 @@ class Hist(Stream):
     check_fn = 'check_hist'
     rule = ('histories of 6..16 operations on ONE Pools object over shared Pool objects: Pool(...), setters on any object '
             '(re-delegation with set_delegation_id, defined_on / defined_for edits, details), add_pool (incl. replacing a pool '
-            'under the same pool id), incorporate_delegation into the object itself, build_index_by_delegation_id (repeatedly), generate_delegations_by_node_id (also with a '
+            'under the same pool id), incorporate_delegation into the object itself, the read-only queries (get_node_ids, '
+            'get_delegation_ids, get_pools_by_delegation_id, strict get_pool_by_id, validate_pools, get_type, Pool getters; returned sets '
+            'are then modified by the harness), get_pool_by_id (creating), build_index_by_delegation_id (repeatedly), generate_delegations_by_node_id (also with a '
             'stale index), regroup (generate + incorporate into a fresh Pools, two node orders); non-trivial = the index was '
             'built at least twice with an edit in between; distinct by case value')
 
@@ -1584,11 +1605,33 @@ class Hist(Stream):
                     ops.append(['inc', rng.choice(NODES), dty, sps])
                 if rng.random() < 0.15:
                     ops.append(rng.choice([['generate'], ['regroup']]))      # with a stale index
+                if rng.random() < 0.3:
+                    ops.append(self.gen_query(rng, pids, nobj))
             ops.append(['index'])
+            for _ in range(rng.choice([0, 1, 1, 2, 3])):                     # read-only queries between index and generate
+                ops.append(self.gen_query(rng, pids, nobj))
             ops.append(['generate'])
+            if rng.random() < 0.3:
+                ops.append(self.gen_query(rng, pids, nobj))
             ops.append(['regroup'])
             out.append({'ty': ty, 'ops': ops})
         return out
+
+    def gen_query(self, rng, pids, nobj):
+        r = rng.randrange(10)
+        if r < 4:
+            return ['q', 'nodeids', rng.choice(IDS[:4])]
+        if r == 4:
+            return ['q', 'delegids', None]
+        if r == 5:
+            return ['q', 'poolsby', rng.choice(IDS[:4])]
+        if r == 6:
+            return ['q', 'getstrict', rng.choice(pids + ['nosuchpool'])]
+        if r == 7:
+            return ['q', rng.choice(['validate', 'type']), None]
+        if r == 8:
+            return ['q', 'poolget', rng.randrange(nobj)]
+        return ['getpool', rng.choice(pids + ['autopool'])]
 
     def corpus(self):
         lv = lambda v: [['details', LAB, [['vlan_range', v]]]]
@@ -1602,6 +1645,10 @@ class Hist(Stream):
             # replace an indexed pool by a new object under the same pool id, re-index
             {'ty': LAB, 'ops': [['new', p1], ['new', p2], ['add', 0], ['add', 1], ['index'],
                                 ['new', p2b], ['add', 2], ['index'], ['generate'], ['regroup']]},
+            # two pools under one delegation id, the node query between index and generate
+            {'ty': LAB, 'ops': [['new', dict(p1, did='del1')], ['new', dict(p2, did='del1', on='node-4', **{'for': ['node-5']})],
+                                ['add', 0], ['add', 1], ['index'], ['q', 'nodeids', 'del1'], ['q', 'delegids', None],
+                                ['generate'], ['regroup']]},
         ] + [c for c in load_corpus('hist')]
 
     def observe(self, case):
@@ -1641,6 +1688,43 @@ class Hist(Stream):
                 except Exception as e:
                     o = err(e)
                 heap_n += len(ps.pool_by_id) - before
+            elif op[0] == 'getpool':
+                before = len(ps.pool_by_id)
+                o = obs_pool(ps.get_pool_by_id(pool_id=op[1]))
+                heap_n += len(ps.pool_by_id) - before
+            elif op[0] == 'q':
+                snap = {'before': [obs_pools(ps), index_snapshot(ps)]}
+                try:
+                    if op[1] == 'nodeids':
+                        r = ps.get_node_ids(op[2])
+                        o = sorted(r)
+                        r.add(MARK)                    # a handed-out container must not be the object's own
+                    elif op[1] == 'delegids':
+                        r = ps.get_delegation_ids()
+                        o = sorted(r)
+                        r.add(MARK)
+                    elif op[1] == 'poolsby':
+                        r = ps.get_pools_by_delegation_id(op[2])
+                        o = None if r is None else [p.pool_id for p in r]
+                    elif op[1] == 'getstrict':
+                        r = ps.get_pool_by_id(pool_id=op[2], strict=True)
+                        o = None if r is None else obs_pool(r)
+                    elif op[1] == 'validate':
+                        ps.validate_pools()
+                        o = True
+                    elif op[1] == 'type':
+                        o = ps.get_type().value
+                    else:
+                        p = objs[op[2]]
+                        det = handles[op[2]]
+                        o = [p.get_pool_type().value, p.get_pool_id(), p.get_delegation_id(), p.get_defined_on(),
+                             sorted(p.get_defined_for()), obs_det(p.get_pool_details())]
+                        p.is_defined_on('node-0'), p.is_defined_for('node-0')
+                except Exception as e:
+                    o = err(e)
+                if op[1] == 'poolget':
+                    det = handles[op[2]]
+                snap['after'] = [obs_pools(ps), index_snapshot(ps)]
             elif op[0] == 'index':
                 snap = obs_pools(ps)
                 try:
@@ -1690,8 +1774,16 @@ class Hist(Stream):
         ty = case['ty']
         fresh = False          # the index was built from the registry as it is now
         for op, out, snap in zip(case['ops'], o['outs'], o['snaps']):
-            if op[0] in ('pool', 'add', 'inc'):
+            if op[0] in ('pool', 'add', 'inc', 'getpool'):
                 fresh = False
+            elif op[0] == 'q':
+                if snap['before'] != snap['after']:
+                    return ('the read-only query %s modified the pools or handed out a live reference: %r -> %r'
+                            % (op[1], snap['before'], snap['after']))
+                if fresh and op[1] == 'nodeids' and not is_err(out):
+                    want = sorted({n for p in snap['before'][0] if p[2] == op[2] for n in p[4]})
+                    if out != want:
+                        return 'get_node_ids(%r) = %r, the pools say %r' % (op[2], out, want)
             elif op[0] == 'index':
                 P = snap
                 if family_expectation(ty, P) == 'invalid':
@@ -1714,13 +1806,13 @@ class Hist(Stream):
 
     def key(self, case, o):
         idx = [i for i, op in enumerate(case['ops']) if op[0] == 'index']
-        if len(idx) >= 2 and any(op[0] in ('pool', 'add', 'inc') for op in case['ops'][idx[0]:idx[-1]]):
+        if len(idx) >= 2 and any(op[0] in ('pool', 'add', 'inc', 'getpool', 'q') for op in case['ops'][idx[0]:idx[-1]]):
             return stable_hash(case)
         return None
 
     def histogram(self, cases, obs):
         h = {'index_calls': 0, 'index_refused': 0, 'redelegations': 0, 'replacements': 0, 'stale_generate': 0,
-             'generate_refused': 0, 'incorporate_into_self': 0, 'ops': 0}
+             'generate_refused': 0, 'incorporate_into_self': 0, 'queries': 0, 'ops': 0}
         for c, o in zip(cases, obs):
             seen_pids, fresh = {}, False
             for op, out in zip(c['ops'], o['outs']):
@@ -1732,9 +1824,11 @@ class Hist(Stream):
                 elif op[0] == 'pool':
                     h['redelegations'] += op[2][0] == 'deleg'
                     fresh = False
-                elif op[0] in ('add', 'inc'):
+                elif op[0] in ('add', 'inc', 'getpool'):
                     h['incorporate_into_self'] += op[0] == 'inc'
                     fresh = False
+                elif op[0] == 'q':
+                    h['queries'] += 1
                 elif op[0] in ('generate', 'regroup'):
                     h['stale_generate'] += not fresh
                     h['generate_refused'] += is_err(out)
@@ -1766,6 +1860,337 @@ class Hist(Stream):
 
 
 # ------------------------------------------------------------------------------------------------
+# stream dhist: ONE Delegations container, multi-step histories
+# ------------------------------------------------------------------------------------------------
+
+def will_construct(sp):
+    return sp['fmt'] == 'single' or (sp['pool'] is not None and not (sp['fmt'] == 'def' and sp['pool'] == '_'))
+
+
+class DHist(Stream):
+    name = 'dhist'
+    header = HEADER.replace('Model.Pools12.', 'Model.Pools12 Model.Deleg12H.')
+    case_type = '(verdicts * dtype * list dop) * val'
+    check_fn = 'check_dhist'
+    rule = ('histories of 6..20 operations on ONE Delegations container over shared Delegation objects: Delegation(...), '
+            'set_details on any object (also after it was added), add_delegations with 1..4 arguments, remove_by_id, the '
+            'queries get_by_delegation_id / get_delegation_ids / get_delegations_as_list / get_sole_delegation / '
+            'return_delegations_for_id / get_details_as_dict (returned containers are then modified by the harness), to_json at '
+            'any point and repeatedly, from_json of any earlier text; non-trivial = to_json was called at least twice with a '
+            'remove / add / set_details in between; distinct by case value')
+
+    def gen(self, rng, tier):
+        self.shard = 130 if tier == 'quick' else 400
+        n = 300 if tier == 'quick' else 4000
+        out = []
+        for _ in range(n):
+            ty = rng.choice([CAP, LAB])
+            ops, nobj, nenc, ids = [], 0, 0, []
+            for i in rng.sample(IDS[:6], rng.randrange(2, 6)):
+                fmt = rng.choice(['single', 'def', 'ref'])
+                sty = ty if rng.random() < 0.93 else (LAB if ty == CAP else CAP)
+                pool = None if fmt == 'single' else rng.choice(PNAMES[:5] + (['_'] if rng.random() < 0.1 else []))
+                details = None if (fmt == 'ref' or rng.random() < 0.08) else [sty, gen_details(rng, sty, bad=0.05)]
+                sp = {'type': sty, 'id': i, 'fmt': fmt, 'pool': pool, 'details': details}
+                ops.append(['new', sp])
+                if will_construct(sp):
+                    ids.append(i)
+                    nobj += 1
+            if nobj == 0:
+                continue
+            pending = list(range(nobj))
+            while pending:
+                k = rng.choice([1, 1, 2, 3, 4])
+                ops.append(['add', pending[:k]])
+                pending = pending[k:]
+                if rng.random() < 0.3:
+                    ops.append(['encode'])
+                    nenc += 1
+            for _ in range(rng.randrange(3, 10)):
+                r = rng.randrange(14)
+                if r < 3:
+                    ops.append(['encode'])
+                    nenc += 1
+                elif r < 5:
+                    ops.append(['remove', rng.choice(ids + ['nosuchid'])])
+                elif r == 5:
+                    ops.append(['set', rng.randrange(nobj), ty, gen_details(rng, ty)])
+                elif r == 6:
+                    ops.append(['add', [rng.randrange(nobj) for _ in range(rng.choice([1, 2]))]])      # re-add (maybe removed)
+                elif r == 7:
+                    ops.append(['get', rng.choice(ids + ['nosuchid'])])
+                elif r == 8:
+                    ops.append(['ids'])
+                elif r == 9:
+                    ops.append(['list'])
+                elif r == 10:
+                    ops.append(['sole'])
+                elif r == 11:
+                    ops.append(['for', rng.choice(ids + ['nosuchid'])])
+                elif r == 12:
+                    ops.append(['dict', rng.randrange(nobj)])
+                elif nenc:
+                    ops.append(['decode', rng.randrange(nenc)])
+            ops.append(['encode'])
+            nenc += 1
+            if rng.random() < 0.5:
+                ops.append(['decode', rng.randrange(nenc)])
+            out.append({'ty': ty, 'ops': ops})
+        return out
+
+    def corpus(self):
+        c1 = {'type': CAP, 'id': 'd1', 'fmt': 'single', 'pool': None, 'details': [CAP, [['cpu', 1]]]}
+        c2 = {'type': CAP, 'id': 'd2', 'fmt': 'def', 'pool': 'p1', 'details': [CAP, [['ram', 8]]]}
+        c3 = {'type': CAP, 'id': 'd3', 'fmt': 'ref', 'pool': 'p1', 'details': None}
+        return [
+            # the unmerge flow: encode, remove_by_id, encode again
+            {'ty': CAP, 'ops': [['new', c1], ['new', c2], ['new', c3], ['add', [0, 1, 2]], ['encode'], ['remove', 'd1'],
+                                ['encode'], ['decode', 0], ['decode', 1]]},
+            # details changed through the object after it was added and encoded
+            {'ty': CAP, 'ops': [['new', c1], ['new', c2], ['add', [0, 1]], ['encode'], ['set', 1, CAP, [['ram', 16]]],
+                                ['get', 'd2'], ['ids'], ['list'], ['dict', 1], ['for', 'd2'], ['encode'], ['sole']]},
+        ] + [c for c in load_corpus('dhist')]
+
+    def observe(self, case):
+        D, CL = lib()
+        ty = case['ty']
+        ds = D.Delegations(atype=T(ty))
+        objs, texts, outs, snaps, redecs = [], [], [], [], []
+        for op in case['ops']:
+            redec = None
+            k = op[0]
+            if k == 'new':
+                sp = op[1]
+                try:
+                    d = D.Delegation(atype=T(sp['type']), delegation_id=sp['id'], aformat=F(sp['fmt']), pool_id=sp['pool'])
+                except Exception as e:
+                    o = [err(e)]
+                else:
+                    o = [True]
+                    if sp['details'] is not None:
+                        try:
+                            obj = mk_obj(sp['details'][0], sp['details'][1])
+                        except Exception as e:
+                            o.append(err(e))
+                        else:
+                            o.append(True)
+                            try:
+                                d.set_details(obj)
+                                o.append(True)
+                            except Exception as e:
+                                o.append(err(e))
+                    objs.append(d)
+            elif k == 'set':
+                try:
+                    obj = mk_obj(op[2], op[3])
+                except Exception as e:
+                    o = [err(e)]
+                else:
+                    try:
+                        objs[op[1]].set_details(obj)
+                        o = [True, True]
+                    except Exception as e:
+                        o = [True, err(e)]
+            elif k == 'add':
+                try:
+                    ds.add_delegations(*[objs[i] for i in op[1]])
+                    r = True
+                except Exception as e:
+                    r = err(e)
+                o = [r, [v.delegation_id for v in ds.delegations.values()]]
+            elif k == 'remove':
+                ds.remove_by_id(op[1])
+                o = True
+            elif k == 'get':
+                r = ds.get_by_delegation_id(op[1])
+                o = None if r is None else obs_deleg(r)
+            elif k == 'ids':
+                r = ds.get_delegation_ids()
+                o = sorted(r)
+                r.add(MARK)
+            elif k == 'list':
+                r = ds.get_delegations_as_list()
+                o = [obs_deleg(x) for x in r]
+                r.append(MARK)
+            elif k == 'sole':
+                try:
+                    i, v = ds.get_sole_delegation()
+                    o = [i, obs_deleg(v)]
+                except Exception as e:
+                    o = err(e)
+            elif k == 'for':
+                r = ds.return_delegations_for_id(op[1])
+                o = None if r is None else obs_delegations(r)
+                if r is not None:
+                    r.delegations.clear()
+            elif k == 'dict':
+                r = objs[op[1]].get_details_as_dict()
+                o = [obs_ddict(r)]
+                if r is not None:
+                    r[MARK] = 1
+            elif k == 'encode':
+                try:
+                    text = ds.to_json()
+                    texts.append(text)
+                    o = [obs_jdoc(text)]
+                    try:
+                        redec = [obs_delegations(D.Delegations.from_json(json_str=text, atype=T(ty)))]
+                    except Exception as e:
+                        redec = err(e)
+                except Exception as e:
+                    texts.append(None)
+                    o = err(e)
+            else:   # decode j
+                if texts[op[1]] is None:
+                    o = None
+                else:
+                    try:
+                        o = [obs_delegations(D.Delegations.from_json(json_str=texts[op[1]], atype=T(ty)))]
+                    except Exception as e:
+                        o = err(e)
+            outs.append(o)
+            snaps.append(obs_delegations(ds))
+            redecs.append(redec)
+        dds = [op[1]['details'][1] for op in case['ops'] if op[0] == 'new' and op[1]['details'] and op[1]['details'][0] == LAB]
+        dds += [op[3] for op in case['ops'] if op[0] == 'set' and op[2] == LAB]
+        return {'outs': outs, 'final': obs_delegations(ds), 'snaps': snaps, 'redecs': redecs, 'verdicts': verdicts_for(dds)}
+
+    def to_coq(self, case, o):
+        terms = []
+        for op in case['ops']:
+            k = op[0]
+            if k == 'new':
+                terms.append('(DNew %s)' % c_spec(op[1]))
+            elif k == 'set':
+                terms.append('(DSet %s %s %s)' % (cnat(op[1]), c_ty(op[2]), c_ddict(op[3])))
+            elif k == 'add':
+                terms.append('(DAdd %s)' % clist([cnat(i) for i in op[1]]))
+            elif k in ('remove', 'get', 'for'):
+                terms.append('(%s %s)' % ({'remove': 'DRemove', 'get': 'DGet', 'for': 'DFor'}[k], cstr(op[1])))
+            elif k in ('dict', 'decode'):
+                terms.append('(%s %s)' % ({'dict': 'DDict', 'decode': 'DDecode'}[k], cnat(op[1])))
+            else:
+                terms.append({'ids': 'DIds', 'list': 'DAsList', 'sole': 'DSole', 'encode': 'DEncode'}[k])
+        return '((%s, %s, %s), %s)' % (c_verdicts(o['verdicts']), c_ty(case['ty']), clist(terms),
+                                       py_val([o['outs'], o['final']]))
+
+    def oracle(self, case, o):
+        ty = case['ty']
+        prev = [TY_CODE[ty], []]
+        at_encode = []
+        for op, out, snap, redec in zip(case['ops'], o['outs'], o['snaps'], o['redecs']):
+            k = op[0]
+            ids = [d[1] for d in snap[1]]
+            if len(set(ids)) != len(ids):
+                return 'the container holds a delegation id twice: %r' % ids
+            if k in ('new', 'get', 'ids', 'list', 'sole', 'for', 'dict', 'encode', 'decode') and snap != prev:
+                return 'the read-only operation %s changed the container (or handed out a live reference): %r -> %r' % (k, prev, snap)
+            if k == 'remove':
+                if snap[1] != [d for d in prev[1] if d[1] != op[1]]:
+                    return 'remove_by_id(%r): %r -> %r' % (op[1], prev, snap)
+            elif k == 'add':
+                pids = [d[1] for d in prev[1]]
+                if not is_err(out[0]):
+                    if ids[:len(pids)] != pids or len(ids) != len(pids) + len(op[1]):
+                        return 'add_delegations accepted %d arguments, the container went %r -> %r' % (len(op[1]), pids, ids)
+                elif ids[:len(pids)] != pids:
+                    return 'a refused add_delegations call changed what the container held'
+            elif k == 'get':
+                want = [d for d in snap[1] if d[1] == op[1]]
+                if out != (want[0] if want else None):
+                    return 'get_by_delegation_id(%r) = %r, the container holds %r' % (op[1], out, want)
+            elif k == 'ids':
+                if out != sorted(ids):
+                    return 'get_delegation_ids() = %r, the container holds %r' % (out, ids)
+            elif k == 'list':
+                if out != snap[1]:
+                    return 'get_delegations_as_list() differs from the content'
+            elif k == 'sole':
+                if (len(ids) == 1) != (not is_err(out)) or (not is_err(out) and out != [ids[0], snap[1][0]]):
+                    return 'get_sole_delegation() = %r, the container holds %r' % (out, ids)
+            elif k == 'for':
+                want = [d for d in snap[1] if d[1] == op[1]]
+                if out != ([snap[0], want] if want else None):
+                    return 'return_delegations_for_id(%r) = %r' % (op[1], out)
+            elif k == 'encode':
+                encodable = all(d[2] == 2 or nonempty_det(d[4]) for d in snap[1])
+                if is_err(out):
+                    at_encode.append(None)
+                    if encodable:
+                        return 'to_json raised %s on delegations that all carry details' % out['err']
+                else:
+                    at_encode.append(snap)
+                    if not encodable:
+                        return 'to_json encoded a delegation without details'
+                    if is_err(redec) or redec[0] != snap:
+                        return ('to_json does not encode the CURRENT content: its text decodes to %r while the container holds %r'
+                                % (redec, snap))
+            elif k == 'decode':
+                want = at_encode[op[1]]
+                if want is not None and (is_err(out) or out[0] != want):
+                    return 'from_json of the text of to_json call #%d gives %r, the container held %r then' % (op[1], out, want)
+            prev = snap
+        return None
+
+    def key(self, case, o):
+        enc = [i for i, op in enumerate(case['ops']) if op[0] == 'encode']
+        if len(enc) >= 2 and any(op[0] in ('remove', 'add', 'set') for op in case['ops'][enc[0]:enc[-1]]):
+            return stable_hash(case)
+        return None
+
+    def histogram(self, cases, obs):
+        h = {'ops': 0, 'encode': 0, 'encode_refused': 0, 'remove': 0, 'add_calls': 0, 'add_refused': 0, 'set_after_add': 0,
+             'queries': 0, 'decode_earlier': 0, 'reencode_after_change': 0}
+        for c, o in zip(cases, obs):
+            changed_since_enc, seen_enc, added = False, False, False
+            for op, out in zip(c['ops'], o['outs']):
+                h['ops'] += 1
+                k = op[0]
+                if k == 'encode':
+                    h['encode'] += 1
+                    h['encode_refused'] += is_err(out)
+                    h['reencode_after_change'] += seen_enc and changed_since_enc
+                    seen_enc, changed_since_enc = True, False
+                elif k == 'remove':
+                    h['remove'] += 1
+                    changed_since_enc = True
+                elif k == 'add':
+                    h['add_calls'] += 1
+                    h['add_refused'] += is_err(out[0])
+                    changed_since_enc = added = True
+                elif k == 'set':
+                    h['set_after_add'] += added
+                    changed_since_enc = True
+                elif k == 'decode':
+                    h['decode_earlier'] += 1
+                elif k != 'new':
+                    h['queries'] += 1
+        return h
+
+    def describe(self, case, o):
+        return {'case': case, 'impl': {'outs': o['outs'], 'final': o['final']}}
+
+    def shrink(self, case, failing):
+        # removing a 'new' or an 'encode' would shift object / text numbers: only remove the other operations
+        case = copy.deepcopy(case)
+        changed = True
+        while changed:
+            changed = False
+            for i, op in enumerate(case['ops']):
+                if op[0] in ('new', 'encode'):
+                    continue
+                cand = dict(case, ops=case['ops'][:i] + case['ops'][i + 1:])
+                try:
+                    bad = failing(cand)
+                except Exception:
+                    bad = False
+                if bad:
+                    case, changed = cand, True
+                    break
+        return case
+
+
+# ------------------------------------------------------------------------------------------------
 def load_corpus(stream):
     d = os.path.join(VERIF, 'corpus', 'C12')
     out = []
@@ -1778,8 +2203,8 @@ def load_corpus(stream):
 class C12(Check):
     pid = 'C12'
     translators = ['gen_deleg']
-    model_targets = ['Model/Deleg12.vo', 'Model/Pools12.vo', 'Model/Pools12H.vo']
-    streams = [Ops(), Json(), PoolsS(), Inc(), Annotate(), Hist()]
+    model_targets = ['Model/Deleg12.vo', 'Model/Pools12.vo', 'Model/Pools12H.vo', 'Model/Deleg12H.vo']
+    streams = [Ops(), Json(), PoolsS(), Inc(), Annotate(), Hist(), DHist()]
     trusted_base = [
         'Coq 8.16.1 kernel (coqc), vm_compute for the correspondence evaluation; no native_compute',
         'Print Assumptions of every C12 theorem: Closed under the global context (no axioms)',
